@@ -134,6 +134,10 @@ func (n *Node) processSyncRequest(rpc net.RPC, cmd *net.SyncRequest) {
 
 		//select min(cmd.SyncLimit, this.SyncLimit) events
 		limit := min(cmd.SyncLimit, n.conf.SyncLimit)
+		if limit < 0 {
+			// a negative limit, sent by the requester, selects nothing
+			limit = 0
+		}
 
 		n.logger.WithFields(logrus.Fields{
 			"req.sync_limit": cmd.SyncLimit,
